@@ -2176,14 +2176,15 @@ func paginateList[P listParams, R listResult[T], T any](fs *featureSet[T], pageS
 		count++
 		// If we've seen pageSize + 1 elements, we've gathered enough info to determine
 		// if there's a next page. Stop processing the sequence.
-		if count == pageSize+1 {
+		// (Compared without computing pageSize+1, which overflows for math.MaxInt.)
+		if count > pageSize {
 			break
 		}
 		features = append(features, f)
 	}
 	setFunc(res, features)
 	// No remaining pages.
-	if count < pageSize+1 {
+	if count <= pageSize {
 		return res, nil
 	}
 	nextCursor, err := encodeCursor(fs.uniqueID(features[len(features)-1]))
